@@ -737,6 +737,18 @@ def correspond(ctx):
                 if r is not None:
                     ctx.dist('oracle:' + r[0])
                     ctx.fail(r[0], r[1], {'smiles': t, 'molecule': m, 'options': opts})
+    # documented meaning of each keyword (docstring of smiles()), on the real code, molecule and every role
+    for opt in ('remap', 'ignore_stereo', 'keep_implicit', 'ignore_bad_isotopes', 'ignore_carbon_radicals'):
+        for m in OPTION_MOLS + ['[999CH4]', 'C[3CH2]N', '[13CH3][C@H]([3CH3])O']:
+            for t in ['{m}'] + ROLE_TEMPLATES:
+                t = t.format(m=m)
+                ctx.dist('stream:option-semantics(oracle only)')
+                state['n_or'] += 1
+                ctx.count(('OS', t, opt), True)
+                r = option_semantics(t, opt)
+                if r is not None:
+                    ctx.dist('oracle:' + r[0])
+                    ctx.fail(r[0], r[1], {'smiles': t, 'option': opt})
     # model vs code for the three keywords that act inside the hydrogen loop of create_molecule (all 8 combinations):
     # driver op `H k a c s` against smiles(s, keep_implicit=k, ignore_aromatic_radicals=a, ignore_carbon_radicals=c)
     if ctx.build_ok:
@@ -1187,8 +1199,68 @@ def role_relation(m, t, opts):
     return None
 
 
+def option_semantics(s, opt):
+    """documented meaning of ONE keyword of smiles() (its docstring), judged on the real code for the text `s` (a molecule or a
+    reaction without CXSMILES block). Returns None or (signature, what). Independent of the Lean model."""
+    from . import c03_ref as R
+    _, S, _ = _mods()
+    from chython import ReactionContainer
+    try:
+        kind, gs = ref_read(s)
+    except Exception:
+        return None
+    try:
+        obj = S.smiles(s, **{opt: True})
+    except ValueError as e:
+        if opt == 'ignore_bad_isotopes':
+            try:
+                S.smiles(s.replace('[3', '[').replace('[999', '['))      # the same text without the bad isotope marks
+            except Exception:
+                return None
+            return ('C03/option-semantics/ignore_bad_isotopes',
+                    f'smiles({s!r}, ignore_bad_isotopes=True) raised {type(e).__name__}: {e}; the keyword resets an invalid isotope mark')
+        return None
+    except Exception as e:
+        return f'C03/unrelated-exception/{type(e).__name__}', f'smiles({s!r}, {opt}=True) raised {type(e).__name__}: {e}'
+    is_rxn = isinstance(obj, ReactionContainer)
+    roles = [(obj.reactants, gs[0]), (obj.reagents, gs[1]), (obj.products, gs[2])] if is_rxn else [([obj], gs)]
+    sig = f'C03/option-semantics/{opt}'
+    for mols, g in roles:
+        atoms = [a for m in mols for a in m._atoms.values()]
+        bonds = [b for m in mols for n, ms in m._bonds.items() for b in ms.values()]
+        if not g or len(atoms) != len(g.atoms):
+            continue
+        if opt == 'remap' and not is_rxn:
+            nums = [n for m in mols for n in m._atoms]
+            if nums != list(range(1, len(nums) + 1)):
+                return sig, f'smiles({s!r}, remap=True): atom numbers {nums}, documented: numbers started from one'
+        if opt == 'ignore_stereo':
+            if any(getattr(a, 'stereo', None) is not None for a in atoms) or any(getattr(b, 'stereo', None) is not None for b in bonds):
+                return sig, f'smiles({s!r}, ignore_stereo=True) = {obj}: stereo labels present'
+        if opt == 'keep_implicit':
+            for k, (a, ra) in enumerate(zip(atoms, g.atoms)):
+                if ra.bracket and a.implicit_hydrogens != ra.hcount:
+                    return sig, (f'smiles({s!r}, keep_implicit=True) = {obj}: bracket atom {k} of a role has {a.implicit_hydrogens} hydrogens, '
+                                 f'written {ra.hcount}')
+        if opt == 'ignore_bad_isotopes':
+            from chython.periodictable import Element
+            for k, (a, ra) in enumerate(zip(atoms, g.atoms)):
+                ok = ra.isotope is None or ra.isotope in Element.from_atomic_number(ra.z)().isotopes_distribution
+                want = ra.isotope if ok else None
+                if a.isotope != want:
+                    return sig, f'smiles({s!r}, ignore_bad_isotopes=True) = {obj}: atom {k} of a role has isotope {a.isotope}, expected {want}'
+        if opt == 'ignore_carbon_radicals':
+            for k, a in enumerate(atoms):
+                if a.atomic_number == 6 and a.is_radical:
+                    return sig, f'smiles({s!r}, ignore_carbon_radicals=True) = {obj}: carbon {k} of a role is a radical (no CXSMILES mark in the text)'
+    return None
+
+
 def probe(inp):
     """re-execute one input (or a short list of inputs of the same finding) on the real code"""
+    if 'option' in inp:      # documented meaning of one keyword
+        r = option_semantics(inp['smiles'], inp['option'])
+        return (True, r[1]) if r is not None else (False, f"smiles({inp['smiles']!r}, {inp['option']}=True): as documented")
     if 'options' in inp:     # relational input: molecule text, reaction text, keyword arguments
         r = role_relation(inp['molecule'], inp['smiles'], inp['options'])
         return (True, r[1]) if r is not None else (False, f"smiles({inp['smiles']!r}, **{inp['options']}): role agrees with the molecule read alone")
